@@ -182,7 +182,7 @@ fn main() {
     let args: Vec<String> = std::env::args().collect();
     if args.len() >= 8 && args[1] == "--create" {
         // C09: one creation through the high-level creator, as a process that can be killed or made to fail
-        let r = mkcont::std_container(&args[2], &args[3], &args[4], args[5].parse().unwrap(), args[6].parse().unwrap(), args[7].parse().unwrap(), 0, 0, 0);
+        let r = mkcont::std_container(&args[2], &args[3], &args[4], args[5].parse().unwrap(), args[6].parse().unwrap(), args[7].parse().unwrap(), 0, 0, 0, false);
         match r {
             Ok(_) => std::process::exit(0),
             Err(e) => {
